@@ -109,7 +109,10 @@ Proof.
     try (inversion H; subst; cbn; lia); try (apply IH in H; lia);
     try (destruct err; inversion H; subst; cbn; lia);
     (* a skipped character: since /repo 914ba97 a skipped line break counts *)
-    try (apply IH in H; destruct (chr_is c "010"); lia).
+    try (apply IH in H; destruct (chr_is c "010"); lia);
+    (* the two error exits that count a consumed line break after the token was built (/repo e81033c) *)
+    try (inversion H; subst; cbn;
+         match goal with |- context [chr_is ?x "010"] => destruct (chr_is x "010") end; lia).
 Qed.
 
 Theorem scan_token_line : forall st t st',
